@@ -7,7 +7,7 @@ that belong to C02.
 from harness import auction
 
 PROPS = {'C02'}
-KQ, KT = 5, 7
+KQ, KT = 6, 8
 
 
 def cases(tier):
@@ -24,5 +24,5 @@ META = dict(
     assumptions=auction.COMMON_ASSUMPTIONS,
     rule='feasible paths of take_bid/contract from a symbolic state (H1) or along K symbolic calls (H2); distinct = different path conditions',
     explanation='one inductive step of the real take_bid from any invariant state + bounded model checking from the constructor against an explicit-history oracle',
-    required_outcomes=['ONGOING', 'FINISHED', 'constructed', 'refused after the end', 'ran'],
+    required_outcomes=[('ONGOING', 'H1 not applicable'), 'FINISHED', 'constructed', 'refused after the end', 'ran'],
 )
